@@ -7,6 +7,14 @@ A *case* is
                 "ops": [[d, ev|None], ...]}],   # d >= 0: sleep_cycles(d); d == -1: bare Poll::Pending
                                       # [d, ev|None, rep]: the op rep times in a row (compact notation for long
                                       # chains), the event belongs to the last repetition; expand_tasks() unfolds it
+                                      # [d, ev|None, 1, mk]: WHERE the sleep future of the op is constructed --
+                                      #   mk = k >= 1: `let nap = sleep_cycles(d);` stands k resumptions before the
+                                      #   one that does `nap.await` (clipped to the task's first poll); "spawn": the
+                                      #   host constructs it right before driver.spawn and moves it into the task;
+                                      #   "new": the host constructs it right after constructing the driver.
+                                      #   Absent/None/0: the ordinary `sleep_cycles(d).await`.
+                "gh": [[r, d], ...]}],# `let _ = sleep_cycles(d);` in resumption r (-1 = first poll, i = the one that
+                                      # follows op i): a sleep future constructed and dropped, never awaited
      "budgets": [b0, b1, ...],        # explicit run_for budgets
      "tail_budget": B, "tail_max": N} # afterwards run_for(B) until all tasks finished and MaxCycles (<= N calls)
 
@@ -85,8 +93,42 @@ def strip_final_emit(entry: Dict[str, Any]) -> Dict[str, Any]:
     return e
 
 
+MK_EARLIER = ", sleep future constructed in an earlier resumption than the one that awaits it"
+MK_HOST = ", sleep future constructed by the host before the task was spawned"
+
+
+def op_mk(o: List[Any]) -> Any:
+    """construction place of the op's sleep future: None (ordinary), k >= 1, "spawn" or "new" """
+    if len(o) > 3 and o[3] and o[0] >= 0:
+        return o[3]
+    return None
+
+
+def mk_suffix(o: List[Any]) -> str:
+    m = op_mk(o)
+    if m is None:
+        return ""
+    return MK_HOST if isinstance(m, str) else MK_EARLIER
+
+
+def has_construction(case: Dict[str, Any]) -> bool:
+    return any(t.get("gh") or any(op_mk(o) is not None for o in t["ops"]) for t in case["tasks"])
+
+
+def strip_construction(case: Dict[str, Any]) -> Dict[str, Any]:
+    """The same case with every sleep future constructed where it is awaited and no dropped sleep futures."""
+    c = dict(case)
+    c["tasks"] = []
+    for t in case["tasks"]:
+        nt = {k: v for k, v in t.items() if k != "gh"}
+        nt["ops"] = [list(o[:3]) if len(o) > 3 else list(o) for o in t["ops"]]
+        c["tasks"].append(nt)
+    return c
+
+
 def expand_tasks(tasks: List[Dict[str, Any]]) -> List[Dict[str, Any]]:
-    """Unfold the compact [d, ev, rep] notation into plain [d, ev] ops (same expansion as the Rust adapter)."""
+    """Unfold the compact [d, ev, rep] notation into plain [d, ev] ops (same expansion as the Rust adapter); an op
+    with a construction place keeps it as [d, ev, 1, mk]."""
     if not any(len(o) > 2 for t in tasks for o in t["ops"]):
         return tasks
     out = []
@@ -96,7 +138,7 @@ def expand_tasks(tasks: List[Dict[str, Any]]) -> List[Dict[str, Any]]:
             rep = o[2] if len(o) > 2 else 1
             if rep >= 1:
                 ops.extend([[o[0], None]] * (rep - 1))
-                ops.append([o[0], o[1]])
+                ops.append([o[0], o[1]] + ([1, o[3]] if op_mk(o) is not None else []))
         nt = dict(t)
         nt["ops"] = ops
         out.append(nt)
@@ -203,11 +245,14 @@ def _sanity(case: Dict[str, Any], obs: Dict[str, Any]) -> None:
 
 
 def check(case: Dict[str, Any], obs: Dict[str, Any], ref: Optional[Dict[str, Any]] = None,
-          again: Optional[Dict[str, Any]] = None) -> Tuple[List[Violation], List[str], bool]:
+          again: Optional[Dict[str, Any]] = None, plain: Optional[Dict[str, Any]] = None
+          ) -> Tuple[List[Violation], List[str], bool]:
     """Verdicts for one observed scheduler run.
 
     ref   : observation of the same task set under the reference partition (tail budget only), or None
     again : a second observation of the very same case (determinism), or None
+    plain : observation of strip_construction(case) under the same budgets (every sleep future constructed where
+            it is awaited), or None
     returns (violations, labels, nontrivial)"""
     out: List[Violation] = []
     labels: List[str] = []
@@ -238,6 +283,12 @@ def check(case: Dict[str, Any], obs: Dict[str, Any], ref: Optional[Dict[str, Any
     by_task: List[List[List[int]]] = [[] for _ in range(ntasks)]
     for e in log:
         by_task[e[0]].append(e)
+    plain_by_task: Optional[List[List[List[int]]]] = None
+    if plain is not None and plain.get("ok"):
+        plain_by_task = [[] for _ in range(ntasks)]
+        for e in plain["log"]:
+            if 0 <= e[0] < ntasks:
+                plain_by_task[e[0]].append(e)
     for i, ents in enumerate(by_task):
         t = tasks[i]
         if ents:
@@ -252,7 +303,13 @@ def check(case: Dict[str, Any], obs: Dict[str, Any], ref: Optional[Dict[str, Any
             want = ents[j - 1][2] + (1 if d < 0 else d)
             got = ents[j][2]
             if got != want:
-                V("wake-exact", op_kind(d) + (f", {LONG_STEPS} or more steps into a script" if j > LONG_STEPS else ""),
+                # the construction place is part of the fingerprint only if it matters: the same script with
+                # ordinary `sleep_cycles(d).await` (when it was observed) is not resumed at this wrong cycle too
+                sfx = mk_suffix(t["ops"][j - 1])
+                if sfx and plain_by_task is not None and j < len(plain_by_task[i]) and plain_by_task[i][j][2] == got:
+                    sfx = ""
+                V("wake-exact", op_kind(d) + sfx +
+                  (f", {LONG_STEPS} or more steps into a script" if j > LONG_STEPS else ""),
                   "resumed earlier than requested" if got < want
                   else "resumed later than requested",
                   f"task {i} step {j - 1}: previous resumption at {ents[j - 1][2]}, asked d={d} -> {want}, "
@@ -411,6 +468,13 @@ def check(case: Dict[str, Any], obs: Dict[str, Any], ref: Optional[Dict[str, Any
               "resumption order depends on the budget partition" if same
               else "resumption log depends on the budget partition",
               f"budgets {budgets[:8]}: {seq[:24]} vs single-budget run: {rseq[:24]}")
+    # ---- a sleep future is inert until it is awaited: where its constructor call stands does not matter --------
+    if plain is not None and plain.get("ok"):
+        if plain.get("log") != obs.get("log") or plain.get("results") != obs.get("results"):
+            V("construction-independence", "sleep futures constructed away from the resumption that awaits them",
+              "resumption log or run_for results differ from the same script with every sleep constructed where it is awaited",
+              f"observed {seq[:24]} {results[:8]}; with ordinary `sleep_cycles(d).await` everywhere "
+              f"{[(e[0], e[1], e[2]) for e in plain.get('log', [])[:24]]} {plain.get('results', [])[:8]}")
     if again is not None:
         if again.get("log") != obs.get("log") or again.get("results") != obs.get("results"):
             V("determinism", "same case run twice", "two runs of the same case differ",
@@ -476,7 +540,34 @@ def check(case: Dict[str, Any], obs: Dict[str, Any], ref: Optional[Dict[str, Any
         labels.append("budget:0")
     if clock0:
         labels.append("clock0:nonzero")
-    if xcase is not case:
+    # construction place of sleep futures: how stale is the construction cycle when the future is first polled?
+    mkl = set()
+    for i, ents in enumerate(by_task if has_construction(case) else []):
+        ops = tasks[i]["ops"]
+        if tasks[i].get("gh"):
+            mkl.add("mk:constructed-and-dropped")
+        for j, o in enumerate(ops):
+            m = op_mk(o)
+            if m is None:
+                continue
+            if isinstance(m, str):
+                mkl.add("mk:host-" + m)
+                continue
+            if j >= len(ents):
+                mkl.add("mk:earlier,never-awaited")
+                continue
+            made = ents[max(j - m, 0)][2]  # ents[r + 1] is resumption r; r = max(j - 1 - m, -1)
+            polled = ents[j][2]
+            if made == polled:
+                mkl.add("mk:earlier,same-cycle")
+            elif made + o[0] < polled:
+                mkl.add("mk:earlier,d-counted-from-construction-would-be-in-the-past")
+            elif made + o[0] == polled:
+                mkl.add("mk:earlier,d-counted-from-construction-would-be-now")
+            else:
+                mkl.add("mk:earlier,d-counted-from-construction-would-be-early")
+    labels.extend(sorted(mkl))
+    if any(len(o) > 2 and o[2] != 1 for t in case["tasks"] for o in t["ops"]):
         longest = max(len(t["ops"]) for t in tasks)
         labels.append("long-script:>=1000-steps" if longest >= 1000 else "long-script:<1000-steps")
         if _longest_same_cycle_run(by_task) > 1000:
